@@ -128,15 +128,21 @@ example : ∃ P : CurvePt (blsB : F1), Represents blsG1 P :=
 /-- `optimized_bn128.b` as an `FQ` object of the model -/
 def bnB : Fq bnP := Fq.ofInt optimized_bn128_b
 
+/-- the model type of `optimized_bn128` G1 points -/
+abbrev BnG1Pt : Type := Fq bnP × Fq bnP × Fq bnP
+
+/-- `optimized_bn128.G1 = (1, 2, 1)` as a model triple -/
+def bnG1 : BnG1Pt := CurveSem.ptOpt (Fq bnP) optimized_bn128_G1
+
 /-- `2 ≠ 0`, `3 ≠ 0` and `b = FQ(3) ≠ 0` in the model of the bn128 base field -/
 theorem fbn_field_ok : (2 : Fq bnP) ≠ 0 ∧ (3 : Fq bnP) ≠ 0 ∧ bnB ≠ 0 := by decide +kernel
 
 section BnG1
-variable {T T₁ T₂ : Fq bnP × Fq bnP × Fq bnP} {P Q : CurvePt bnB}
+variable {T T₁ T₂ : BnG1Pt} {P Q : CurvePt bnB}
 
 /-- `optimized_bn128.is_on_curve` on model `FQ` triples accepts exactly the representatives of Mathlib
     points of `y² = x³ + 3` over `Fq bnP` -/
-theorem on_curve_iff_Fbn (T : Fq bnP × Fq bnP × Fq bnP) :
+theorem on_curve_iff_Fbn (T : BnG1Pt) :
     OptBn.is_on_curve T bnB = true ↔ ∃ P : CurvePt bnB, Represents T P :=
   C07Opt.Bn.opt_on_curve_represents fbn_field_ok.1 fbn_field_ok.2.1 fbn_field_ok.2.2 T
 
